@@ -31,11 +31,17 @@ func (pass *ConstantToEnum) processObject(_ *Visitor, _ *ast.Schema, object ast.
 		return object, nil
 	}
 
+	constantValue, ok := object.Type.Scalar.Value.(string)
+	if !ok {
+		// a "string" constant holding something else than a string: leave it alone.
+		return object, nil
+	}
+
 	object.Type = ast.NewEnum([]ast.EnumValue{
 		{
 			Type:  ast.String(),
-			Name:  object.Type.Scalar.Value.(string),
-			Value: object.Type.Scalar.Value.(string),
+			Name:  constantValue,
+			Value: constantValue,
 		},
 	})
 	object.AddToPassesTrail("ConstantToEnum")
